@@ -1,0 +1,144 @@
+//go:build verif
+
+package kafka
+
+// Add-only export file for the verification harness in /verif (build tag
+// "verif"): step-level access to the unexported parts of writer.go,
+// message.go and error.go.  Nothing here is compiled into normal builds.
+
+import "time"
+
+// VerifTotalSize exposes (*Message).totalSize.
+func VerifTotalSize(m Message) int32 { return m.totalSize() }
+
+// VerifRetriable is the retry condition of (*partitionWriter).writeBatch.
+func VerifRetriable(err error) bool { return isTemporary(err) || isTransientNetworkError(err) }
+
+// VerifBatch wraps a *writeBatch for step-level add/full.
+type VerifBatch struct{ b *writeBatch }
+
+// VerifNewBatch builds a fresh batch (timer of one hour; call Stop when done).
+func VerifNewBatch() *VerifBatch {
+	return &VerifBatch{b: newWriteBatch(time.Now(), time.Hour)}
+}
+
+func (v *VerifBatch) Add(msg Message, maxSize int, maxBytes int64) bool {
+	return v.b.add(msg, maxSize, maxBytes)
+}
+
+func (v *VerifBatch) Full(maxSize int, maxBytes int64) bool { return v.b.full(maxSize, maxBytes) }
+
+func (v *VerifBatch) Size() int { return v.b.size }
+
+func (v *VerifBatch) Bytes() int64 { return v.b.bytes }
+
+// Len is the number of messages actually stored in the batch.
+func (v *VerifBatch) Len() int { return len(v.b.msgs) }
+
+// Stop stops the timer of the batch.
+func (v *VerifBatch) Stop() { v.b.timer.Stop() }
+
+// VerifPW is a hand-built partitionWriter without its sender goroutine: the
+// batches that writeMessages queues stay in the queue.
+type VerifPW struct {
+	p   *partitionWriter
+	all []*writeBatch // every batch seen so far, in creation order
+}
+
+// VerifNewPW builds the partition writer of topic "t", partition 0 of w
+// without spawning writeBatches.
+func VerifNewPW(w *Writer) *VerifPW {
+	return &VerifPW{p: &partitionWriter{
+		meta:  topicPartition{topic: "t", partition: 0},
+		queue: newBatchQueue(10),
+		w:     w,
+	}}
+}
+
+// refresh renumbers the batches: nothing pops the queue, so the batches in
+// creation order are queue[0..] followed by currBatch.
+func (v *VerifPW) refresh() {
+	v.p.mutex.Lock()
+	defer v.p.mutex.Unlock()
+	v.p.queue.mutex.Lock()
+	defer v.p.queue.mutex.Unlock()
+	all := make([]*writeBatch, 0, len(v.p.queue.queue)+1)
+	all = append(all, v.p.queue.queue...)
+	if v.p.currBatch != nil {
+		all = append(all, v.p.currBatch)
+	}
+	v.all = all
+}
+
+// WriteMessages calls writeMessages(msgs, 0..n-1) and returns, per message
+// index, the ordinal (creation order in this partition writer, 0-based) of
+// the batch the message was assigned to; nil for Async writers.  An index
+// that no batch claims is reported as -1, one claimed twice as -2.
+func (v *VerifPW) WriteMessages(msgs []Message) (refs []int) {
+	indexes := make([]int32, len(msgs))
+	for i := range indexes {
+		indexes[i] = int32(i)
+	}
+	m := v.p.writeMessages(msgs, indexes)
+	v.refresh()
+	if m == nil {
+		return nil
+	}
+	ord := make(map[*writeBatch]int, len(v.all))
+	for i, b := range v.all {
+		ord[b] = i
+	}
+	refs = make([]int, len(msgs))
+	for i := range refs {
+		refs[i] = -1
+	}
+	for b, idxs := range m {
+		o, ok := ord[b]
+		if !ok {
+			o = -3
+		}
+		for _, i := range idxs {
+			if refs[i] != -1 {
+				refs[i] = -2
+			} else {
+				refs[i] = o
+			}
+		}
+	}
+	return refs
+}
+
+// Snapshot returns the number of messages of each queued batch in order, and
+// of currBatch (-1 if there is none).
+func (v *VerifPW) Snapshot() (queueLens []int, curr int) {
+	v.p.mutex.Lock()
+	defer v.p.mutex.Unlock()
+	v.p.queue.mutex.Lock()
+	defer v.p.queue.mutex.Unlock()
+	queueLens = make([]int, len(v.p.queue.queue))
+	for i, b := range v.p.queue.queue {
+		queueLens[i] = len(b.msgs)
+	}
+	curr = -1
+	if v.p.currBatch != nil {
+		curr = len(v.p.currBatch.msgs)
+	}
+	return queueLens, curr
+}
+
+// Drain detaches the current batch, releases every awaitBatch goroutine
+// (which stops the timers) and waits for them.
+func (v *VerifPW) Drain() {
+	v.refresh()
+	v.p.mutex.Lock()
+	v.p.currBatch = nil
+	v.p.mutex.Unlock()
+	for _, b := range v.all {
+		select {
+		case <-b.ready:
+		default:
+			b.trigger()
+		}
+	}
+	v.p.w.group.Wait()
+}
